@@ -22,16 +22,16 @@ import (
 func init() {
 	Registry["C10"] = &Check{
 		Scenarios: c10Scenarios,
-		Rule: "the server side of a connection over TLS (crypto/tls on both ends of the in-memory transport): CER with Inband-Security-Id {absent, 0, 1} x applications {shared, unsupported, none, vendor-specific unsupported, wrong type} followed by RAR / STR / ACR in the same TLS record; one state machine serves 300 sequential peers (CER, then RAR / STR / ACR for the by-name, by-index and catch-all handlers), with the optional HandshakeNotify channel never read and drained; on the server side another peer has completed its capabilities exchange with the same state machine on a connection of its own before every history; message flag bits P and T rotate with the position in the history; server side: every history of <=4 (thorough 5) peer messages over {acceptable CER, CER without common application, CER lacking Origin-Host and every application AVP, retransmitted CER, DWR, RAR (app 0), RAA, CCR (app 4), ACR (app 3)}; client side (sm.Client.NewConn): every history of <=4 (thorough 5) messages over {success CEA, failing CEA (result code rotating over 5010, 1001, 3004, 1, 4001, 5012), application-less CEA, a CER sent by the peer, DWR, RAR, RAA, CCA} sent in reply to the CER; application handlers registered by short name, by index and as catch-all (three configurations; names and the catch-all through HandleFunc in the one-segment histories and through Handle with a handler object in the others), each after attempts to register CER / CEA / DWR by name and by index; each history delivered in one segment and one segment per message; and histories (one shorter, with an unsolicited success CEA added to the alphabet) on an accepted connection served by a state machine that is also the handler of an sm.Client whose dial has completed. Plus scheduled scenarios (preemption bound 2, thorough 3): the peer never answers the CER and sends application requests half an interval before, exactly at and half an interval after the instant the client's handshake gives up. One deterministic schedule per history on the instrumented build (the quantifier is over histories; the scheduler supplies determinism and an exact notion of quiescence). Oracle: the sequence of application-handler invocations equals the gate model (invoked iff the handshake succeeded earlier on this connection), refused registrations never run, and the built-in CEA/DWA are still produced.",
+		Rule: "the server side of a connection over TLS (crypto/tls on both ends of the in-memory transport): CER with Inband-Security-Id {absent, 0, 1} x applications {shared, unsupported, none, vendor-specific unsupported, wrong type} followed by RAR / STR / ACR in the same TLS record; one state machine serves 300 sequential peers (CER, then RAR / STR / ACR for the by-name, by-index and catch-all handlers), with the optional HandshakeNotify channel never read, drained, and read once (the application stays busy with its first peer); Disconnect-Peer requests among the application messages of every history; on the server side another peer has completed its capabilities exchange with the same state machine on a connection of its own before every history; message flag bits P and T rotate with the position in the history; server side: every history of <=4 (thorough 5) peer messages over {acceptable CER, CER without common application, CER lacking Origin-Host and every application AVP, retransmitted CER, DWR, RAR (app 0), RAA, CCR (app 4), ACR (app 3)}; client side (sm.Client.NewConn): every history of <=4 (thorough 5) messages over {success CEA, failing CEA (result code rotating over 5010, 1001, 3004, 1, 4001, 5012), application-less CEA, a CER sent by the peer, DWR, RAR, RAA, CCA} sent in reply to the CER; application handlers registered by short name, by index and as catch-all (three configurations; names and the catch-all through HandleFunc in the one-segment histories and through Handle with a handler object in the others), each after attempts to register CER / CEA / DWR by name and by index; each history delivered in one segment and one segment per message; and histories (one shorter, with an unsolicited success CEA added to the alphabet) on an accepted connection served by a state machine that is also the handler of an sm.Client whose dial has completed. Plus scheduled scenarios (preemption bound 2, thorough 3): the peer never answers the CER and sends application requests half an interval before, exactly at and half an interval after the instant the client's handshake gives up. One deterministic schedule per history on the instrumented build (the quantifier is over histories; the scheduler supplies determinism and an exact notion of quiescence). Oracle: the sequence of application-handler invocations equals the gate model (invoked iff the handshake succeeded earlier on this connection), refused registrations never run, and the built-in CEA/DWA are still produced.",
 		Assume: []string{"single default schedule per history", "reference gate model {handshake done, closed}"},
 		QuickBudget: 120, ThoroughBudget: 1800,
 	}
 }
 
-var c10ServerAlpha = []string{"cer", "cer-noapp", "cer-bare", "cer-retx", "dwr", "rar", "raa", "ccr", "acr"}
+var c10ServerAlpha = []string{"cer", "cer-noapp", "cer-bare", "cer-retx", "dwr", "rar", "raa", "ccr", "acr", "dpr"}
 var c10FailCodes = []uint32{5010, 1001, 3004, 1, 4001, 5012}
 
-var c10ClientAlpha = []string{"cea", "cea-fail", "cea-noapp", "cer", "dwr", "rar", "raa", "cca"}
+var c10ClientAlpha = []string{"cea", "cea-fail", "cea-noapp", "cer", "dwr", "rar", "raa", "cca", "dpr"}
 
 func c10Msg(kind string, seq int) []byte {
 	id := uint32(100 + seq)
@@ -73,6 +73,10 @@ func c10Msg(kind string, seq int) []byte {
 		return refcodec.EncodeMessage(h(0x00, 272, 4), append([]refcodec.Node{u32avp(268, 2001)}, base...))
 	case "acr":
 		return refcodec.EncodeMessage(h(0x80, 271, 3), base)
+	case "dpr":
+		// Disconnect-Peer-Request: a base-protocol command the state machine has no built-in
+		// processing for - an application message like any other
+		return refcodec.EncodeMessage(h(0x80, 282, 0), append([]refcodec.Node{{Code: 273, Flags: 0x40, Payload: refcodec.U32(0)}}, base...))
 	}
 	panic(kind)
 }
@@ -90,6 +94,8 @@ func c10AppKey(kind string) string {
 		return "CCA"
 	case "acr":
 		return "ACR"
+	case "dpr":
+		return "DPR"
 	}
 	return ""
 }
@@ -98,6 +104,7 @@ var c10Idx = map[string]diam.CommandIndex{
 	"RAR": {AppID: 0, Code: 258, Request: true}, "RAA": {AppID: 0, Code: 258, Request: false},
 	"CCR": {AppID: 4, Code: 272, Request: true}, "CCA": {AppID: 4, Code: 272, Request: false},
 	"ACR": {AppID: 3, Code: 271, Request: true},
+	"DPR": {AppID: 0, Code: 282, Request: true},
 }
 
 type c10Run struct {
@@ -194,9 +201,9 @@ func c10Scenarios(tier string) []*Scenario {
 		}
 	}
 	out = append(out, &Scenario{Name: "server/tls-connection", Seq: c10OverTLS})
-	for _, drain := range []bool{false, true} {
+	for _, drain := range []string{"never", "always", "once"} {
 		drain := drain
-		out = append(out, &Scenario{Name: fmt.Sprintf("server/many-sequential-peers/handshake-notify-read=%v", drain), Seq: func(r *SeqResult) { c10ManyPeers(r, drain) }})
+		out = append(out, &Scenario{Name: "server/many-sequential-peers/handshake-notify-read=" + drain, Seq: func(r *SeqResult) { c10ManyPeers(r, drain) }})
 	}
 	for _, cfg := range []string{"name", "index", "all"} {
 		for _, oneSeg := range []bool{true, false} {
@@ -624,7 +631,7 @@ func c10TimeoutTie(cfg string, at time.Duration, bound int) *Scenario {
 // index) and an ACR of application 3 (catch-all): all three must run for every peer. Reading the
 // state machine's HandshakeNotify channel is optional: the application either never does, or
 // drains it.
-func c10ManyPeers(r *SeqResult, drain bool) {
+func c10ManyPeers(r *SeqResult, drain string) {
 	const peers = 300
 	saved := vs.DefaultMaxSteps
 	vs.DefaultMaxSteps = 5000000
@@ -643,7 +650,8 @@ func c10ManyPeers(r *SeqResult, drain bool) {
 			got = append(got, "all")
 			m.Answer(2001).WriteTo(c) // the peer waits for this answer: everything before it has been dispatched
 		})
-		if drain {
+		switch drain {
+		case "always":
 			vs.GoNamed("app-handshake-notify", true, func() {
 				for {
 					if _, ok := mach.HandshakeNotify().Recv2(); !ok {
@@ -651,6 +659,9 @@ func c10ManyPeers(r *SeqResult, drain bool) {
 					}
 				}
 			})
+		case "once":
+			// the application takes the first peer from the channel and is then busy with it for good
+			vs.GoNamed("app-handshake-notify", true, func() { mach.HandshakeNotify().Recv2() })
 		}
 		base := []refcodec.Node{ident(264, "cli"), ident(296, "test")}
 		for i := 0; i < peers; i++ {
@@ -705,7 +716,7 @@ func c10ManyPeers(r *SeqResult, drain bool) {
 		verdict = "panic: " + panics[0]
 	}
 	if verdict != "" {
-		r.Violation = fmt.Sprintf("%s (HandshakeNotify read by the application: %v; library goroutines blocked at the end: %v)", verdict, drain, blocked)
+		r.Violation = fmt.Sprintf("%s (HandshakeNotify read by the application: %s; library goroutines blocked at the end: %v)", verdict, drain, blocked)
 		r.Case = map[string]interface{}{"scenario": "many-peers", "drain": drain}
 	}
 }
